@@ -156,6 +156,15 @@ Section Glue.
       end
     end.
 
+  (* collect_garbage always completes: given fuel >= capacity for the sweep, it fails only if the marking traversal does *)
+  Lemma gc_total fuel s roots vis : @Inv concrete_ops s -> (N.to_nat (cap (tbl s)) <= fuel)%nat ->
+    @descendants concrete_ops fuel s roots = Some vis -> exists s', gc fuel s roots = Some s'.
+  Proof.
+    intros [(HA & HC & _) _] Hf Hd. unfold gc. rewrite Hd.
+    destruct (sweep_total node nhash pin fuel (tbl s) (fun i => memN i vis) HA HC Hf) as (t' & E).
+    unfold bucket_list. unfold bucket_range in E. rewrite E. eauto.
+  Qed.
+
   (* the ghost register: a successful put records the running maximum of the live count; gc and cache writes keep it *)
   Lemma peak_put s n s' i : cput_node s n = Some (s', i) -> peak s' = N.max (peak s) (real_size (tbl s')).
   Proof.
